@@ -234,16 +234,28 @@ type Frame struct {
 	Parent int    // index into Trace.Frames, -1 for the top frame
 }
 
+type OpRec struct {
+	Cum   uint64 // gas the transaction has consumed (incl. intrinsic) BEFORE this opcode
+	Cost  uint64 // cost charged for the opcode (for call opcodes: includes the gas handed to the callee)
+	Call  bool   // CALL / CALLCODE / DELEGATECALL / STATICCALL
+	Depth int
+}
+
 type Trace struct {
 	Frames []Frame
-	// CumGas[i] = gas consumed by the transaction (incl. intrinsic) once opcode i has been charged;
-	// a transaction with gas limit CumGas[i]-1 runs out of gas no later than at opcode i.
-	CumGas  []uint64
+	// Ops: every opcode executed with the TRANSACTION's gas (opcodes of ERC-20 calls made by a precompile
+	// from Go run on a separate gas cap and are left out)
+	Ops     []OpRec
 	Limit   uint64
 	VmError string
 	GasUsed uint64
 	Failed  bool
-	stack   []int
+	// Free marks addresses whose frames spend gas that is not the transaction's (the stateful precompiles)
+	Free     map[common.Address]bool
+	stack    []int
+	retained []uint64
+	pending  uint64
+	free     int // number of frames on the stack that are precompile frames
 }
 
 func (t *Trace) CaptureTxStart(gasLimit uint64) { t.Limit = gasLimit }
@@ -251,6 +263,7 @@ func (t *Trace) CaptureTxEnd(restGas uint64)    {}
 func (t *Trace) CaptureStart(env *vm.EVM, from, to common.Address, create bool, input []byte, gas uint64, value *big.Int) {
 	t.Frames = append(t.Frames, Frame{Depth: 0, Type: "CALL", To: to, Gas: gas, Parent: -1})
 	t.stack = []int{0}
+	t.retained = []uint64{0}
 }
 func (t *Trace) CaptureEnd(output []byte, gasUsed uint64, err error) {
 	if err != nil {
@@ -261,18 +274,36 @@ func (t *Trace) CaptureEnter(typ vm.OpCode, from, to common.Address, input []byt
 	parent := t.stack[len(t.stack)-1]
 	t.Frames = append(t.Frames, Frame{Depth: len(t.stack), Type: typ.String(), To: to, Gas: gas, Parent: parent})
 	t.stack = append(t.stack, len(t.Frames)-1)
+	t.retained = append(t.retained, t.pending)
+	if t.free > 0 || t.Free[to] {
+		t.free++
+	}
 }
 func (t *Trace) CaptureExit(output []byte, gasUsed uint64, err error) {
 	i := t.stack[len(t.stack)-1]
 	t.stack = t.stack[:len(t.stack)-1]
+	t.retained = t.retained[:len(t.retained)-1]
+	if t.free > 0 {
+		t.free--
+	}
 	if err != nil {
 		t.Frames[i].Err = err.Error()
 	}
 }
 func (t *Trace) CaptureState(pc uint64, op vm.OpCode, gas, cost uint64, scope *vm.ScopeContext, rData []byte, depth int, err error) {
-	// gas = gas left in the CURRENT frame before the opcode; what the transaction has consumed so far is
-	// limit - (gas left in this frame + gas retained by the ancestors), which the interpreter does not
-	// expose; the cut points are therefore derived from the top frame by EthTrace (see Profile).
+	if t.free > 0 {
+		return
+	}
+	// gas left in the whole transaction = gas of this frame + what the ancestors kept back at their call opcodes
+	left := gas
+	for _, r := range t.retained[1:] {
+		left += r
+	}
+	call := op == vm.CALL || op == vm.CALLCODE || op == vm.DELEGATECALL || op == vm.STATICCALL
+	if call && gas >= cost {
+		t.pending = gas - cost
+	}
+	t.Ops = append(t.Ops, OpRec{Cum: t.Limit - left, Cost: cost, Call: call, Depth: len(t.stack)})
 }
 func (t *Trace) CaptureFault(pc uint64, op vm.OpCode, gas, cost uint64, scope *vm.ScopeContext, depth int, err error) {
 }
@@ -286,7 +317,7 @@ func (e *Env) TraceMsg(ctx sdk.Context, from common.Address, to common.Address, 
 	}
 	msg := &core.Message{From: from, To: &to, Nonce: e.W.App.EvmKeeper.GetNonce(cctx, from), Value: value, GasLimit: gas,
 		GasPrice: big.NewInt(0), GasFeeCap: big.NewInt(0), GasTipCap: big.NewInt(0), Data: data, AccessList: ethtypes.AccessList{}}
-	tr := &Trace{}
+	tr := &Trace{Free: map[common.Address]bool{StakingAddr: true, CrosschainAddr: true}}
 	var res *evmtypes.MsgEthereumTxResponse
 	var err error
 	func() {
